@@ -159,6 +159,9 @@ func checkRead(c ReadCase) error {
 				return fmt.Errorf("call %d: the limit error is %T, want a *LimitError", i, err)
 			}
 			_ = err.Error()
+			// The error value is the caller's: it rescales the field for its
+			// own report.  Later Reads must still report the reader's limit.
+			le.Limit = le.Limit/1024 + 7
 			for _, a := range under.asked[askedBefore:] {
 				if a > 0 {
 					return fmt.Errorf("call %d: %d bytes were requested from the underlying reader after the limit %d had been delivered", i, a, c.Limit)
